@@ -627,9 +627,10 @@ def validate_spec(ck, runner, hists, leans, limit):
     """Spec/Link against gcc (clang in the documented quirk classes).  Only marks the check broken."""
     cand = [(h, l) for h, l in zip(hists, leans) if l[1].split()[0] in ("ok", "violates")]
     if len(cand) > limit:
-        short = [c for c in cand if len(c[0]) <= 2]
-        longer = [c for c in cand if len(c[0]) > 2]
-        cand = short[:limit] + ck.rng.sample(longer, max(0, min(len(longer), limit - len(short))))
+        # always: the plain file/block histories of length <= 2; the rest is a uniform sample
+        must = [c for c in cand if len(c[0]) <= 2 and not any(f[0] == "N" or "@" in f for f in c[0])]
+        rest = [c for c in cand if not (len(c[0]) <= 2 and not any(f[0] == "N" or "@" in f for f in c[0]))]
+        cand = must + ck.rng.sample(rest, max(0, min(len(rest), limit - len(must))))
     d = os.path.join(ck.scratch(), "nm")
     os.makedirs(d, exist_ok=True)
     stats = {"histories": len(cand), "agree_gcc": 0, "agree_clang_in_gcc_quirk_class": 0, "accept": 0, "reject": 0}
@@ -639,7 +640,7 @@ def validate_spec(ck, runner, hists, leans, limit):
         k, (h, l) = arg
         mo, sv, ent, dev = l
         # a use of an internal-linkage function that is never defined violates 6.9p3: render without uses
-        used = not (sv.startswith("ok") and ent == "f:intern" and "undef=x" in sv)
+        used = not (sv.startswith("ok") and ent == "f:intern" and not sv.endswith("undef="))
         text = render(h, "x", use=used)
 
         def agrees(cmd):
@@ -730,7 +731,7 @@ def run(ck):
     if not ck.violations:
         pairs = keep[0] + [p for p in keepn[0] if any(f[0] == "N" for f in p[0])] + \
             [p for p in keepl[0] if any("@" in f for f in p[0])]
-        validate_spec(ck, runner, [p[0] for p in pairs], [p[1] for p in pairs], 4000 if quick else 40000)
+        validate_spec(ck, runner, [p[0] for p in pairs], [p[1] for p in pairs], 4000 if quick else 25000)
     if not ck.proofs_ok and not ck.violations:
         ck.violation({"kind": "proof-broken", "theorem": "CprocVerif.Props.C09 (lake build failed)",
                       "log": ck.build_log[-3000:]}, nofail=True)
